@@ -282,6 +282,7 @@ class FakeRepo:
         self.tag_log = []       # [(name, message|None, commit id)]
         self.push_log = []      # [argv tail]
         self.fetch_count = 0
+        self.pending_remote_tags = []   # tags a colleague pushed: they arrive with the next successful fetch / pull
         self.ncommits = 0
         self.new_commit(None)
 
@@ -311,6 +312,17 @@ class FakeRepo:
             seen.add(c)
             stack.extend(self.parents.get(c, []))
         return seen
+
+    def _receive_remote_tags(self):
+        """A fetch brings the remote's new commits and the tags that point at them; local branches do not move."""
+        for t in self.pending_remote_tags:
+            if t in self.tags:
+                continue
+            cid = _hexid(self.ncommits)
+            self.ncommits += 1
+            self.parents[cid] = [self.head_commit()]
+            self.tags[t] = cid
+        self.pending_remote_tags = []
 
     def switch(self, branch, create_from=None):
         if branch not in self.branches:
@@ -342,7 +354,7 @@ class FakeRepo:
         h.update(repr((self.personality, self.remote, self.tracking, sorted(self.parents.items()),
                        sorted(self.branches.items()), self.head, sorted(self.tags.items()),
                        self.status, sorted(self.staged), self.commit_log, self.tag_log, self.push_log,
-                       self.fetch_count)).encode("utf-8", "surrogateescape"))
+                       self.fetch_count, self.pending_remote_tags)).encode("utf-8", "surrogateescape"))
         return h.hexdigest()[:16]
 
     # ---- command execution -------------------------------------------------------------------
@@ -426,6 +438,7 @@ class FakeRepo:
             if not self.remote:
                 return (128, b"", b"fatal: no remote\n")
             self.fetch_count += 1
+            self._receive_remote_tags()
             return (0, b"", b"")
         if role == "ls_tags":
             out = "".join(t + "\n" for t in sorted(self.tags))
@@ -475,6 +488,7 @@ class FakeRepo:
             if not self.remote:
                 return (255, b"", b"abort: repository default not found\n")
             self.fetch_count += 1
+            self._receive_remote_tags()
             return (0, b"", b"")
         if role == "ls_tags":
             lines = ["%-30s %5d:%s\n" % ("tip", self.ncommits - 1, self.head_commit())]
